@@ -71,6 +71,16 @@ def _general(ctx, want_tag, thorough):
         if which == 0:
             fac = lambda: call(cl.ThermochemRawData, h, s, tss, cpss, tref, (lo, hi))
             label = 'ThermochemRawData(random #%d, supplied %s)' % (k, tss)
+        elif which == 1 and k % 2:
+            # the same data arrived at by overwriting an earlier table on the same temperatures
+            def fac(h=h, s=s, tss=tss, cpss=cpss, tref=tref, lo=lo, hi=hi):
+                def make():
+                    c = cl.ThermochemIncomplete(h, s, dict(zip(tss, [v + 1.0 for v in cpss])), tref, (lo, hi))
+                    c.get_CpoR(tss[0])
+                    c.update(cl.ThermochemIncomplete(None, None, dict(zip(tss, cpss)), tref, (lo, hi)), True)
+                    return c
+                return call(make)
+            label = 'ThermochemIncomplete(random #%d, table overwritten by update)' % k
         elif which == 1:
             fac = lambda: call(cl.ThermochemIncomplete, h, s, dict(zip(tss, cpss)), tref, (lo, hi))
             label = 'ThermochemIncomplete(random #%d)' % k
